@@ -72,6 +72,8 @@ def alloc_sites(fn):
         if tgt is None:
             continue
         lf = last_field(tgt)
+        if strip(tgt)[0] == 'u' and strip(tgt)[1] == '*':
+            lf = None       # stored through a pointer member (*obj->pp = alloc): the owner is whatever pp designates
         key = (pstr(tgt), ev['l'], kind)
         if key in seen:
             continue
